@@ -194,6 +194,17 @@ def fixed_scenarios():
             g.inn("good", ip=oip, expect=True)
         g.add(S("check"), S("stop"), S("check"))
         out.append(g.done())
+    # F8b: Stop must not wait for the remote side of a handshake (long handshake time limit, silent remote sides)
+    for what in ["in-silent", "in-half", "out-silent", "out-blackhole"]:
+        g = Gen("stopprompt-" + what, htMs=3000, ctMs=3000)
+        g.add(S("start"))
+        if what.startswith("in-"):
+            g.inn(what[3:], nowait=True)
+        else:
+            a, _, _ = g.listen(what[4:])
+            g.add(S("addpeer", keys=[a], nowait=True))
+        g.add(S("sleep", ms=150), S("stop", expect=True), S("check"))
+        out.append(g.done())
     # F9: the download completes while an outgoing handshake is in progress
     for pending in ["silent", "none", "blackhole"]:
         g = Gen("complete-" + pending, maxDial=2, maxAccept=3)
@@ -308,6 +319,7 @@ def project(raw_path, crashed):
         a = [{"ev": "init", "sid": sid, "maxAccept": ini["maxAccept"], "maxDial": ini["maxDial"], "blocked": ini["blocked"],
               "inLimit": ini["inLimit"], "outLimit": ini["outLimit"], "slack": ini["slack"]}]
         born, nsnap, stale, unknown = {}, 0, 0, []
+        own_seen = [None]
 
         def conn_in(addr):
             ip, port = ipn(addr)
@@ -334,6 +346,7 @@ def project(raw_path, crashed):
             elif k == "snap":
                 nsnap += 1
                 own = e["ownID"]
+                own_seen[0] = own
                 pid = lambda h: 0 if h == own else pidmap.get(h, 99)
                 live = set()
                 ins, outs = [], []
@@ -357,18 +370,23 @@ def project(raw_path, crashed):
                           "queue": [list(conn_out(x)) for x in e["queue"]], "outHS": outs, "inHS": ins, "peers": peers,
                           "connIPs": sorted(ipn(x + ":0")[0] for x in e["connIPs"]), "peerIDs": sorted(pid(x) for x in e["peerIDs"]),
                           "banned": sorted(ipn(x + ":0")[0] for x in e["banned"]), "nIn": e["nIn"], "nOut": e["nOut"], "status": e["status"]})
+            elif k in ("hsreply", "hsseen"):
+                # the peer id the client puts on the wire is the one its bookkeeping compares with (own-id scripts rely on it)
+                if nsnap and e["peerid"] != own_seen[0]:
+                    raise vlib.MachineryError("scenario %s: the client's handshake carries peer id %s, the loop says %s" % (sid, e["peerid"], own_seen[0]))
             elif k == "check":
                 if e["nchg"] != nsnap:       # taken under an older state than the one the judge would compare it with
                     stale += 1
                     continue
                 a.append({"ev": "check", "t": t, "openIn": e["openIn"], "openOut": e["openOut"]})
             elif k == "expect":
-                a.append({"ev": "expect", "what": e["what"], "ok": bool(e["ok"]), "key": e["key"]})
+                a.append({"ev": "expect", "what": e["what"], "ok": bool(e["ok"]), "key": e["key"], "ms": e.get("ms", 0)})
             elif k == "proc":
                 a.append({"ev": "proc", "what": e["what"], "site": e.get("site", "")})
         if sid in crashed:
             a.append({"ev": "proc", "what": "crash", "site": crashed[sid]})
-        out[sid] = (a, {"cls": cls, "stale_checks": stale, "unknown": unknown})
+        raw = [{k: v for k, v in e.items() if k not in ("tr", "pid")} for e in evs if e["ev"] not in ("wire", "sto")]
+        out[sid] = (a, {"cls": cls, "stale_checks": stale, "unknown": unknown, "raw": raw})
     return out
 
 
@@ -411,7 +429,7 @@ def history_of(evs, pos, dirn, ip, key):
     return "peer-closed" if was_peer else ("%shs-failed" % dirn if was_hs else "not-admitted")
 
 
-def signature(tag, evs, pos, info):
+def signature(tag, evs, pos, info, fam=""):
     """canonical description of the violated obligation's circumstances (known-findings matcher works on it)"""
     ev = evs[pos - 1]
     prev = None
@@ -449,9 +467,17 @@ def signature(tag, evs, pos, info):
         for x in ev["openOut"]:
             if x[2] > (1 if (x[0], x[1]) in held_out else 0):
                 how.add(history_of(evs, pos, "out", x[0], x[1]) + ":" + info["cls"].get(("out", x[1]), "?"))
+        if tag != "X03.stop.socket" and any(not h.startswith("not-admitted") for h in how):
+            how = {h for h in how if not h.startswith("not-admitted")}    # those may still be waiting in the acceptor
         return "tag=%s how=%s" % (tag, ",".join(sorted(how)))
     if ev["ev"] == "expect":
-        return "tag=%s key=%s" % (tag, ev.get("key"))
+        cur = prev or {"inHS": [], "outHS": []}
+        if tag.endswith("stop.prompt"):      # what was going on when the stop was issued
+            for e in evs[:pos - 1]:
+                if e["ev"] == "snap" and e["run"]:
+                    cur = e
+        hs = ("in" if cur["inHS"] else "") + ("out" if cur["outHS"] else "") or "none"
+        return "tag=%s handshaking=%s fam=%s" % (tag, hs, fam)
     if ev["ev"] == "proc":
         return "tag=%s site=%s" % (tag, re.sub(r"0x[0-9a-f]+|\d{3,}", "N", ev.get("site", ""))[:120])
     return "tag=%s" % tag
@@ -512,19 +538,47 @@ def conn_subcheck(ctx):
                         "(PeerConnectTimeout + PeerHandshakeTimeout); timing findings are re-run in isolation before they are reported",
                         "the garbage collector is off during a scenario: a socket the code forgets is not closed behind its back by a finalizer",
                         "address list capacity and blocklist content are not exercised here (C17 addr sub-check, C18)"]
+    # the design-level runs do not depend on /repo: they run beside the driver (one thread, sequentially)
+    import threading
+    lock = threading.Lock()
+    orig_copy = ctx._spec_copy
+
+    def locked_copy():
+        with lock:
+            return orig_copy()
+    ctx._spec_copy = locked_copy
+    box = {}
+
+    def design():
+        try:
+            ctx.tlc_mc("MC_Connect", "MC_Connect.cfg", timeout=600, workers=4)
+            ctx.tlc_mc("MC_Connect", "MC_Connect_u1b.cfg", timeout=600, workers=4)
+            if not ctx.quick():
+                ctx.tlc_mc("MC_Connect", "MC_Connect_u2.cfg", timeout=1500, workers=6)
+            leads = []
+            for cfg, inv in [("MC_Connect_asis_infail.cfg", "Closed"), ("MC_Connect_asis_complete.cfg", "Balance")]:
+                ok, out = ctx.tlc_mc("MC_Connect", cfg, timeout=600, workers=2, expect_ok=False)
+                m = re.search(r"Invariant (\S+) is violated", out)
+                if ok or not m or m.group(1) != inv:
+                    raise vlib.MachineryError("%s must violate %s (design-level image of a deviation of the code)\n%s" % (cfg, inv, out[-1500:]))
+                leads.append({"cfg": cfg, "violates": inv})
+            ctx.extra["asis_design_leads"] = leads
+        except BaseException as ex:
+            box["err"] = ex
+    th = None
     if not os.environ.get("X03_SKIP_MC"):
-        ctx.tlc_mc("MC_Connect", "MC_Connect.cfg", timeout=600, workers=8)
-        ctx.tlc_mc("MC_Connect", "MC_Connect_u1b.cfg", timeout=600, workers=8)
-        if not ctx.quick():
-            ctx.tlc_mc("MC_Connect", "MC_Connect_u2.cfg", timeout=1200, workers=8)
-        leads = []
-        for cfg, inv in [("MC_Connect_asis_infail.cfg", "Closed"), ("MC_Connect_asis_complete.cfg", "Balance")]:
-            ok, out = ctx.tlc_mc("MC_Connect", cfg, timeout=600, workers=4, expect_ok=False)
-            m = re.search(r"Invariant (\S+) is violated", out)
-            if ok or not m or m.group(1) != inv:
-                raise vlib.MachineryError("%s must violate %s (design-level image of a deviation of the code)\n%s" % (cfg, inv, out[-1500:]))
-            leads.append({"cfg": cfg, "violates": inv})
-        ctx.extra["asis_design_leads"] = leads
+        th = threading.Thread(target=design)
+        th.start()
+    try:
+        real_code(ctx)
+    finally:
+        if th:
+            th.join()
+    if "err" in box:
+        raise box["err"]
+
+
+def real_code(ctx):
     drv = ctx.build_go("x03")
     rng = random.Random(ctx.seed)
     scen = fixed_scenarios()
@@ -580,9 +634,9 @@ def conn_subcheck(ctx):
         if (sid, tag, pos) in timing and (sid, tag) not in confirmed:
             unrep.append({"id": sid, "tag": tag, "fam": sc["fam"]})
             continue
-        sig = signature(tag, evs, pos, info)
+        sig = signature(tag, evs, pos, info, sc["fam"])
         ctx.violation(tag, sig, "connection history (family %s) violates %s at %s" % (sc["fam"], tag, json.dumps(evs[pos - 1])[:260]),
-                      {"scenario": sc, "abstract_trace": evs[:pos]})
+                      {"scenario": sc, "abstract_trace": evs[:pos], "raw_trace": info["raw"]})
     ctx.extra["unreproduced_timing_candidates"] = unrep
     if model:
         sid, tag, pos = model[0]
